@@ -54,7 +54,7 @@ META = {
             "rx_data while rx_valid is low per run: held last byte (20 %), constant, last byte xor mask, or a cyclic list of "
             "literal junk bytes changing every cycle",
 }
-TIERS = {"quick": {"runs": 4000, "wall": 70}, "thorough": {"runs": 24000, "wall": 900}}
+TIERS = {"quick": {"runs": 8000, "wall": 70}, "thorough": {"runs": 24000, "wall": 900}}
 
 WINDOW = 8
 DEV_CFG = {v: {"variant": v, "spy": False, "endpoints": [{"kind": "stream_in", "ep": 1, "mps": 16}]} for v in ("V1", "V2")}
